@@ -56,10 +56,7 @@ func H_C18_epub_href_resolution() {
 	if !ok {
 		dec = href
 	}
-	want := dec
-	if r.baseDir != "" {
-		want = path.Join(r.baseDir, dec)
-	}
+	want := path.Join(r.baseDir, dec) // also for a package file in the archive root: "./a" and "b/../a" name "a"
 	vAssert("percent-decoded-and-joined", got == want)
 	vReach("end")
 }
